@@ -106,7 +106,7 @@ def run_one(args):
     if kind == 'mutant':
         ok = all(code == 1 for _, code, _, _ in res)
         if ok and case.get('rules'):
-            ok = all(any(r.startswith(w) for r in rules for w in case['rules']) for _, _, rules, _ in res)
+            ok = any(any(r.startswith(w) for r in rules for w in case['rules']) for _, _, rules, _ in res)
         return (case['id'], 'killed' if ok else 'SURVIVED', '', res)
     ok = all(code == 0 for _, code, _, _ in res)
     return (case['id'], 'silent' if ok else 'FALSE-ALARM', '', res)
